@@ -7,6 +7,7 @@
 mod rng;
 mod util;
 mod eng_link;
+mod eng_transport;
 
 use std::io::Write;
 
@@ -24,6 +25,8 @@ fn main() {
             let thorough = tier == "thorough";
             match engine {
                 "link" => eng_link::gen(thorough, seed, &mut out),
+                "transport" => eng_transport::gen_transport(thorough, seed, &mut out),
+                "linkaddr" => eng_transport::gen_linkaddr(thorough, seed, &mut out),
                 _ => {
                     eprintln!("unknown engine {engine}");
                     std::process::exit(2)
@@ -38,6 +41,7 @@ fn main() {
             let mut mon = std::io::BufWriter::new(std::fs::File::create(&args[5]).expect("mon_out"));
             match engine {
                 "link" => eng_link::run(&ops, &mut out, &mut mon),
+                "transport" | "linkaddr" => eng_transport::run(&ops, &mut out, &mut mon),
                 _ => {
                     eprintln!("unknown engine {engine}");
                     std::process::exit(2)
